@@ -27,17 +27,19 @@ RULE = (
 ASSUMPTIONS = [
     "'within the solver tolerance' = 100 * sqrt(n_unknowns) * (newton_atol + newton_rtol * force scale) per residual component, the force "
     "scale being max(1, |h|, |W_g la_g|, |W_c la_c|, |W_N la_N|) at the row (fsolve accepts rms(f / (atol + rtol |f_initial|)) < 1)",
-    "a message = a warning or printed text mentioning the stop (load step / returning / maximum / not converged ...), or an exception",
+    "a message = a warning or printed text that mentions the stop itself (load step / returning / stopped / maximum ...), or an exception; "
+    "the generic 'fsolve is not converged' warning of the Newton helper alone does not say that the run was cut short",
     "moved equilibria are compared at 1e-6 (tight options) / 1e-3 (default options) on node positions and rotation matrices built from the "
     "nodal quaternions by an independent reference map; the 'soft' point-mass scene (several equilibria) is not frame-compared",
     "Riks runs of a base and a moved problem are compared only if both took the same steps (same number of rows, same load factors)",
     "the early-stop contract under forced non-convergence is C21's; only natural stops are looked at here",
 ]
 MIN_NONTRIVIAL = 50
-MIN_OUTCOMES = 4
+MIN_OUTCOMES = 20  # 21 classes on the unchanged tree: {Newton,Riks}[scene]:{complete,early_stop} and contact[scene]:{open,closed,closes,opens}; a run in
+#                    which a whole class vanishes (e.g. no contact ever closes because the solver only stops loudly) does not exercise the clause
 CASE_TIMEOUT = 600
 
-SAYS_SO = re.compile(r"(?i)load step|returning|stopp|early|abort|max_load_steps|maxim|not converged|did not converge|not reached")
+SAYS_SO = re.compile(r"(?i)load step|returning|stopp|early|abort|max_load_steps|maxim|not reached|incomplete|truncat")
 TOLF = {"tight": 1e-6, "default": 1e-3}
 
 
@@ -278,7 +280,8 @@ def check(case):
         solver = run["solver"]
         opts = run["opts"]
         if run["sol"] is None:
-            outcomes.add(f"{solver}:raised:{run['exc'].split(':')[0]}")
+            # a loud stop (e.g. Riks' assert as soon as a contact closes); counted, not an outcome class of the vacuity guard
+            stats[f"n_raised_{solver}_{kind}_{run['exc'].split(':')[0]}"] = stats.get(f"n_raised_{solver}_{kind}_{run['exc'].split(':')[0]}", 0) + 1
             runs[place] = None
             nontrivial = True        # a loud stop exercises the 'says so' clause
             continue
@@ -307,7 +310,7 @@ def check(case):
                     nontrivial = True
         if contact_pattern:
             s = "".join(contact_pattern)
-            outcomes.add("contact:" + ("closed" if "o" not in s else "open" if "c" not in s else "closes" if s[0] == "o" else "opens"))
+            outcomes.add(f"contact[{kind}]:" + ("closed" if "o" not in s else "open" if "c" not in s else "closes" if s[0] == "o" else "opens"))
         # --- early stop?
         if solver == "Newton":
             early = n < case["nsteps"] + 1
@@ -316,7 +319,7 @@ def check(case):
             inside = n > 0 and run["span"][0] <= t[n - 1] <= run["span"][1]
             early = inside
             why = f"last load factor {t[n - 1] if n else float('nan'):.4g} inside the span {run['span']} after {n - 1} steps"
-        outcomes.add(f"{solver}:{'early_stop' if early else 'complete'}")
+        outcomes.add(f"{solver}[{kind}]:{'early_stop' if early else 'complete'}")
         if early:
             nontrivial = True
             if not run["said"]:
